@@ -327,6 +327,24 @@ func init() {
 							[]dataLessStep{{"a", "<About>", false}, {"b", "<3>", false}, {"c", "", true}, {"d", "()2", false}, {"f", "", true}, {"d", "()2", false}}, "data-less")
 					}
 				}})
+			// names over the whole alphabet (every letter in either case, digits and underscores in every position): assigned,
+			// shadowed in a nested block, bound by a loop, re-typed
+			var alphaNames []string
+			for ch := 'A'; ch <= 'Z'; ch++ {
+				alphaNames = append(alphaNames, string(ch), string(ch+32), "v"+string(ch)+"x", "size"+string(ch), string(ch)+"ed", "_"+string(ch+32), string(ch+32)+"9_")
+			}
+			secs = append(secs, core.Section{Name: "names-over-the-alphabet", Exhaustive: true, N: len(alphaNames),
+				Run: func(c *core.Ctx, i int) {
+					n := alphaNames[i]
+					if isKeyword(n) || n == "loop" {
+						return
+					}
+					v := model.Var{Name: n}
+					prog := []model.Stmt{model.Assign{Name: n, E: model.Lit{V: model.Int(1)}}, model.If{Conds: []model.Expr{model.Lit{V: model.Bool(true)}}, Bodies: [][]model.Stmt{{model.Assign{Name: n, E: model.Lit{V: model.Int(2)}}, model.Print{E: v}}}},
+						model.Print{E: v}, model.Each{Var: n + "2", Arr: intArr(7, 8), Body: []model.Stmt{model.Print{E: model.Binary{Op: "+", L: model.Var{Name: n + "2"}, R: v}}}}, model.Text{S: "|"}, model.Print{E: model.Var{Name: "d" + n}}}
+					judgeScope(c, prog, map[string]model.Value{"d" + n: model.Str("data")}, "alphabet-name")
+					judgeScope(c, []model.Stmt{model.Assign{Name: n, E: model.Lit{V: model.Int(1)}}, model.If{Conds: []model.Expr{model.Lit{V: model.Bool(true)}}, Bodies: [][]model.Stmt{{model.Assign{Name: n, E: model.StrLit{S: "s"}}}}}, model.Print{E: v}}, nil, "alphabet-name-retyped")
+				}})
 			// blocks inside one another to depth 15..300: each level assigns a name of its own and shadows nothing; the
 			// innermost block sees them all, after each block its name is gone and the outer ones are as they were
 			deepSizes := []int{15, 16, 17, 63, 64, 65, 127, 128, 129, 255, 256, 300}
